@@ -81,6 +81,27 @@ type Opts struct {
 	Globals      bool
 	IJ           bool
 	AsciiData    bool
+	Big          bool // sizes beyond what buffers, chunks, tables and counters are usually made for: text runs and strings of thousands of bytes, lists of hundreds of items, switches of a dozen cases
+}
+
+// bigUnits are repeated to make long text; none contains a line break, a brace or a comment opener.
+var bigUnits = []string{"lorem ipsum ", "x", "добро пожаловать ", "中文 ", "é", "0123456789", "a<b>&c ", "word.word,word;word ", "😀 "}
+
+func (g *G) bigText(special, astral bool) string {
+	for {
+		u := bigUnits[g.R.Intn(len(bigUnits))]
+		if (!special && strings.ContainsAny(u, "<>&")) || (!astral && strings.Contains(u, "😀")) {
+			continue
+		}
+		// lengths around the powers of two that buffers and chunks are made of, and in between
+		n := []int{255, 256, 257, 1023, 1024, 1025, 2047, 2049, 4095, 4096, 4097, 5000, 8191, 8193, 12000}[g.R.Intn(15)] + g.R.Intn(3)
+		var b strings.Builder
+		b.WriteString([]string{"", "a", "ab", "abc"}[g.R.Intn(4)]) // (so that multi-byte characters sit at every alignment)
+		for b.Len() < n {
+			b.WriteString(u)
+		}
+		return b.String()
+	}
 }
 
 type binding struct {
@@ -146,6 +167,9 @@ func (g *G) Data(t Ty, nextID *int) ref.Value {
 	case "float":
 		return ref.Float(float64(g.R.Intn(4001)-2000) / 8)
 	case "str":
+		if g.O.Big && g.R.P(1, 8) {
+			return ref.Str(g.bigText(true, g.O.Astral && !g.O.AsciiData))
+		}
 		return ref.Str(g.pick(g.strPool()))
 	case "bool":
 		return ref.Bool(g.R.Bool())
@@ -153,6 +177,9 @@ func (g *G) Data(t Ty, nextID *int) ref.Value {
 		*nextID++
 		v := ref.Value{K: ref.KList, ID: *nextID}
 		n := 2 + g.R.Intn(3)
+		if g.O.Big && g.R.P(1, 6) && t.Elem.K != "list" {
+			n = []int{255, 256, 257, 300, 513}[g.R.Intn(5)]
+		}
 		for i := 0; i < n; i++ {
 			v.L = append(v.L, g.Data(*t.Elem, nextID))
 		}
@@ -730,6 +757,10 @@ var rawWords = []string{"foo", "bar", "Hello", "x1", "-", ":", "ok.", "(", ")", 
 var rawSpecials = []string{"<b>", "</b>", "<br>", "&amp;", "<i class=\"k\">", "'", "\"", "a<b", "&"}
 
 func (g *G) rawText() *ref.Raw {
+	if g.O.Big && g.R.P(1, 6) {
+		// (like every text run the generators write, it neither begins nor ends with a blank)
+		return &ref.Raw{Text: strings.TrimSpace(g.bigText(!g.O.NoSpecials, g.O.Astral))}
+	}
 	n := 1 + g.R.Intn(3)
 	var parts []string
 	for i := 0; i < n; i++ {
@@ -895,6 +926,9 @@ func (g *G) command(depth int) []ref.Node {
 			n.E = &ref.Binary{Op: "/", L: &ref.Paren{X: n.E}, R: lit(ref.Int(1))}
 		}
 		k := 1 + g.R.Intn(2)
+		if g.O.Big && g.R.P(1, 2) {
+			k = 6 + g.R.Intn(8) // (a dozen cases, two dozen values)
+		}
 		for i := 0; i < k; i++ {
 			c := ref.SwitchCase{}
 			for j := 0; j < 1+g.R.Intn(2); j++ {
